@@ -86,7 +86,7 @@ def run(ctx, replay=None):
         raise CheckError("selftest: with BreakSignature enabled TLC was expected to find ConvergedAfterDefault violated (exit 12), got exit %d" % rc)
     results["break-signature-makes-C11+C12-unsatisfiable"] = "counterexample found, as expected"
     acts["WriteOKAct"] = acts.get("Step", 0)      # WriteOKAct is the bare Step([name |-> "WriteOK"]) disjunct
-    expected = ["EditAct", "TouchAct", "DeleteAct", "TruncateAct", "StripKeyAct", "ResaveAct", "ReplaceAct", "MakeCsrAct", "EditProfileAct", "ExpireAct", "SetIssuerAct", "RemoveConfigAct", "AddConfigAct", "StartRunAct", "WriteOKAct", "SignFailAct",
+    expected = ["EditAct", "TouchAct", "DeleteAct", "TruncateAct", "StripKeyAct", "ResaveAct", "ReplaceAct", "MakeCsrAct", "EditProfileAct", "ExpireAct", "SetIssuerAct", "RemoveConfigAct", "AddConfigAct", "RemoveProfileAct", "SetProfileAct", "StartRunAct", "WriteOKAct", "SignFailAct",
                 "WriteErrAct", "WriteTornAct", "DieAct"]
     missing = [a for a in expected if acts.get(a, 0) == 0]
     if missing:
